@@ -192,7 +192,12 @@ type c06Dist struct {
 	Distance int        `json:"distance"` // label - (operand address + 1)
 	Refs     int        `json:"refs"`
 	Extra    string     `json:"extra"` // "", "unresolved", "out-of-range"
+	// Name: index into c06LabelNames of the label the swept references use (0 = "t")
+	Name int `json:"name,omitempty"`
 }
+
+// label names are the caller's: empty, with spaces and quotes, with format verbs, long
+var c06LabelNames = []string{"t", "", "two words 'q' \"dq\"", "%s%d%!x", "a_rather_long_label_name_that_does_not_fit_any_column_of_the_listing"}
 
 var c06Branches = map[string]struct {
 	op   byte
@@ -207,9 +212,10 @@ var c06Branches = map[string]struct {
 
 func c06DistRun(c c06Dist) (sig, what string) {
 	br, ok := c06Branches[c.Branch]
-	if !ok {
-		return "bad-case", "unknown branch"
+	if !ok || c.Name < 0 || c.Name >= len(c06LabelNames) {
+		return "bad-case", "unknown branch or label name"
 	}
+	tname := c06LabelNames[c.Name]
 	room := 2048
 	if c.Distance > 1000 || c.Distance < -1000 {
 		room = 66200 // far distances: a program that fills (almost) a whole bank
@@ -222,17 +228,17 @@ func c06DistRun(c c06Dist) (sig, what string) {
 		pad := func(n int) {
 			lb := e.Len()
 			e.EmitBytes(dataBlock(n))
-			m.record(itData, "", "", false, lb, e)
+			m.record(itData, "", false, "", false, lb, e)
 		}
 		ref := func(l string) {
 			lb := e.Len()
 			br.call(e, l)
-			m.record(itInstr, "", l, br.s8, lb, e)
+			m.record(itInstr, "", true, l, br.s8, lb, e)
 		}
 		label := func(l string) {
 			lb := e.Len()
 			e.Label(l)
-			m.record(itLabel, l, "", false, lb, e)
+			m.record(itLabel, l, false, "", false, lb, e)
 		}
 		ilen := 2
 		if !br.s8 {
@@ -241,20 +247,20 @@ func c06DistRun(c c06Dist) (sig, what string) {
 		if c.Distance >= 0 {
 			// forward: refs first (the last one is at the requested distance), then pad, then label
 			for i := 0; i < c.Refs; i++ {
-				ref("t")
+				ref(tname)
 			}
 			pad(c.Distance)
-			label("t")
+			label(tname)
 		} else {
 			// backward: label, pad, refs (the first one is at the requested distance)
-			label("t")
+			label(tname)
 			p := -c.Distance - ilen
 			if p < 0 {
 				return
 			}
 			pad(p)
 			for i := 0; i < c.Refs; i++ {
-				ref("t")
+				ref(tname)
 			}
 		}
 		switch c.Extra {
@@ -265,7 +271,7 @@ func c06DistRun(c c06Dist) (sig, what string) {
 			pad(200)
 			lb := e.Len()
 			e.BNE("far")
-			m.record(itInstr, "", "far", true, lb, e)
+			m.record(itInstr, "", true, "far", true, lb, e)
 		}
 	}()
 	if pn != nil {
@@ -396,7 +402,22 @@ func runC06(r *report.Run) {
 						if refs > 1 && ex != "" && d%16 != 0 && d != 127 && d != 128 && d != -128 && d != -129 {
 							continue
 						}
-						dist = append(dist, c06Dist{v, name, d, refs, ex})
+						dist = append(dist, c06Dist{v, name, d, refs, ex, 0})
+					}
+				}
+			}
+		}
+	}
+	// other label names around both ends of the range
+	for _, v := range variants {
+		if v.BaseSet && v.Base != 0x008000 {
+			continue
+		}
+		for name := range c06Branches {
+			for ni := 1; ni < len(c06LabelNames); ni++ {
+				for _, d := range []int{-130, -129, -128, -127, -1, 0, 1, 126, 127, 128, 129} {
+					for _, ex := range []string{"", "unresolved"} {
+						dist = append(dist, c06Dist{v, name, d, 2, ex, ni})
 					}
 				}
 			}
@@ -414,10 +435,10 @@ func runC06(r *report.Run) {
 				ilen = 2
 			}
 			for k := 0; k <= 140; k++ {
-				dist = append(dist, c06Dist{v, name, -65536 + k, 1, ""}, c06Dist{v, name, 65536 - ilen - k, 1, ""})
+				dist = append(dist, c06Dist{v, name, -65536 + k, 1, "", 0}, c06Dist{v, name, 65536 - ilen - k, 1, "", 0})
 			}
 			for k := -3; k <= 3; k++ {
-				dist = append(dist, c06Dist{v, name, -32768 + k, 1, ""}, c06Dist{v, name, 32768 + k, 1, ""})
+				dist = append(dist, c06Dist{v, name, -32768 + k, 1, "", 0}, c06Dist{v, name, 32768 + k, 1, "", 0})
 			}
 		}
 	}
@@ -442,6 +463,6 @@ func runC06(r *report.Run) {
 	r.Set("bounds", map[string]interface{}{"history_depth": depth, "alphabet": len(asmAlphabet()), "constructor_variants": len(variants), "distances": fmt.Sprintf("[-%d,%d]", lim, lim), "branches": len(c06Branches)})
 	r.Set("rule", "every sequence of emitter calls up to the depth over the 25-symbol alphabet under every constructor variant (listing on/off x base unset/$000000/$008000/$7E2000/$FF8000): each call is executed on a fresh real Emitter and what the emitter did is recorded (accepted or not, the bytes it appended and their offset in Bytes()); a label may be defined once (a second definition must be refused without effect); then Finalize twice against the resolution computed from those positions (which references are resolvable and in range, the operand values, no other byte changed); with listing off also with a successful Finalize inserted after every proper prefix; plus every branch distance in the stated range (and distances a whole bank apart, -65536..-65396 and +65393..+65534, and around +-32768) for each label-taking method, forward and backward, 1-3 references, with and without an additional unresolved or out-of-range reference. states = histories (each reaches one model state), transitions = calls executed")
 	r.Sample(asmHistory{Variant: variants[2], Ops: []string{"BNE(a)", "EmitBytes(33)", "Label(a)", "JMP_abs(b)"}, Capacity: 256})
-	r.Sample(c06Dist{variants[0], "BNE", -128, 2, "unresolved"})
+	r.Sample(c06Dist{variants[0], "BNE", -128, 2, "unresolved", 0})
 	r.Assume("Go map iteration order in Finalize is not controlled; the oracle accepts exactly the union of outcomes over all orders (any legitimately unresolved/out-of-range reference may be named, operand bytes may be patched or not on failure)")
 }
